@@ -114,7 +114,12 @@ def main(argv=None):
         fn["replaced_callees"] = list(spec.calls) + list(spec.shims)
         spec_calls_plain = [c.split("/")[0] for c in spec.calls]
         for c in fn["replaced_callees"]:
-            trusted.add("contract of %s (replaced at call sites; %s)" % (c, "proved in its own unit" if c in spec.calls else "shim: assumed"))
+            how = "shim: assumed"
+            if c in spec.calls:
+                from .spec import find_spec_by_cname
+                cs = find_spec_by_cname(c.split('/')[0])
+                how = "ASSUMED contract, not proved" if cs.kind == 'assumed' else "proved in its own unit"
+            trusted.add("contract of %s (replaced at call sites; %s)" % (c, how))
         probes = [o for o in r["obligations"] if o["label"] == '__probe__']
         fn["obligations"] = len(r["obligations"]) - len(probes)
         fn["loops_closed_by_contract"] = len(spec.loops)
